@@ -66,7 +66,7 @@ class Ob:
             self.fail("undecidable-shape", "undecidable/" + _slug(str(ev)), f"cannot decide: {ev}")
             self.cx._close(self)
             return True
-        if issubclass(et, (KeyError, IndexError, TypeError, AttributeError, ValueError, AssertionError)):
+        if issubclass(et, (KeyError, IndexError, TypeError, AttributeError, ValueError, AssertionError, NameError, StopIteration, RuntimeError)):
             # the checker met a shape it does not understand: fail closed, but say it is the checker
             tbs = "".join(traceback.format_exception(et, ev, tb))[-1500:]
             self.fail("undecidable-shape", "checker-error/" + _slug(self.oid), f"checker error (fail closed): {ev!r}\n{tbs}")
@@ -183,9 +183,17 @@ def run_property(prop, tier="quick", configs=None, repo=None, quiet=False, targe
         d, tree, wall = facts.facts_dir(cfg, repo=repo, target=target)
         crates = facts.load_dir(d)
         prog = Program(crates)
+        from .normalize import normalize
+        norm = normalize(prog)          # identity on the pinned tree; inlines functions the pinned tree does not have
         cx = Cx(prop, prog, tier, cfg, tree, repo=repo)
-        mod.run(cx)
+        try:
+            mod.run(cx)
+        except Exception as e:            # an error between obligations (e.g. a value an earlier, failed obligation was to bind)
+            import traceback
+            with cx.ob(f"{prop}.run", "R-SHAPE", "rule module ran to completion") as ob_:
+                ob_.fail("undecidable-shape", "checker-error/run", f"checker error outside an obligation (fail closed): {e!r}\n{traceback.format_exc()[-600:]}", prop)
         extraction[cfg] = {
+            "normalisation": {"new_functions_inlined": norm["new_functions"], "sites": norm["inlined_sites"], "left_as_calls": [list(x) for x in norm["not_inlined"]][:20]},
             "facts_dir": os.path.relpath(d, VERIF) if d.startswith(VERIF) else d, "extract_wall_s": round(wall, 1),
             "crates": {k: v["n_bodies"] for k, v in crates.items()},
             "rustc": next(iter(crates.values()))["rustc"],
